@@ -289,7 +289,7 @@ def selftest(ctx, trace, kd):
     res = {"corrupt_one_field_flagged": (ia + 1) in va["violations"] and (ia + 1) not in base["violations"]
                                         and len(va["violations"]) == len(base["violations"]) + 1,
            "drop_one_event_flagged": (ib + 1) in vb["violations"] and len(vb["violations"]) > len(base["violations"])}
-    ctx.cov["binding_selftest"] = res
+    ctx.cov.setdefault("binding_selftest", {}).update(res)      # families are judged concurrently: never overwrite
     if not all(res.values()):
         raise lib.ToolError(f"binding self-test failed: {res}")
 
